@@ -12,11 +12,11 @@ P = {
   "Trusted: the reference codec (harness/kit/refcodec.go) as the statement of the documented formats; nil == empty for byte fields.",
   "property-based testing (rapid) with differential reference codec + exhaustive boundary enumeration; native go fuzz in thorough"),
  "C01": ("exploration",
-  "Generated workloads over real Conn/Transport <-> real Server with self-describing payloads: every successful reply must equal the bijective transform of the caller's own arguments and the handler must have logged the caller's argument digest. The harness owns server completion order (gated handlers opened in a drawn permutation), stream fragmentation (byte link with 1..4096-byte reads) and payload sizes up to 400 KB across 4 header encoders and all IO modes. Exploration: schedules inside the library without an IO boundary are sampled, not enumerated.",
+  "Generated workloads over real Conn/Transport <-> real Server with self-describing payloads: every successful reply must equal the bijective transform of the caller's own arguments and the handler must have logged the caller's argument digest. The harness owns server completion order (gated handlers opened in a drawn permutation), stream fragmentation (byte link with 1..4096-byte reads), payload sizes up to 400 KB, server / client buffer sizes that are and are not pool size classes, and the server's context-buffer mode with handlers that release the buffer, across 4 header encoders and all IO modes. Exploration: schedules inside the library without an IO boundary are sampled, not enumerated.",
   "Trusted: harness links (frame link / in-memory byte link wrapped by the library's own framing), execution log. Fault-free runs only; failures are counted, hangs make the run undecided.",
   "property-based testing (rapid), model = bijective echo with unique payloads, harness-owned completion order and fragmentation"),
  "C02": ("exploration",
-  "Generated histories over a real Conn whose socket.Messages is a gated frame link to a scripted peer: the harness decides when each request write succeeds or fails, when (duplicate / unsolicited) responses, peer EOF, read errors and local Close happen, so the racing events of the statement are placed deliberately (with direct IO the schedule is fully owned). Every receive on every Done channel is recorded with a deep copy of Error; oracle: exactly one signal per call, Error frozen, outcome justified by the history. Worker death (nil dereference of a recycled Call) is caught through the case journal and shrunk by the driver.",
+  "Generated histories over a real Conn whose socket.Messages is a gated frame link to a scripted peer: the harness decides when each request write succeeds or fails, when (duplicate / unsolicited) responses, peer EOF, read errors and local Close happen, so the racing events of the statement are placed deliberately (with direct IO the schedule is fully owned). Every receive on every Done channel is recorded with a deep copy of Error; oracle: exactly one signal per call, Error frozen, outcome justified by the history. Worker death (nil dereference of a recycled Call) is caught through the case journal and shrunk by the driver. A fifth of the cases are histories of Go / RoundTrip / blocking calls through a real Transport whose servers are killed and restarted (calls meet stale pooled connections): the Done channel carries the caller's own Call exactly once and its Error stays frozen.",
   "Trusted: frame link semantics (synchronous write errors, EOF after queued data); absence of a second signal is asserted after a 3-20 ms settle. NumCalls after the end of a connection is recorded, not asserted.",
   "model-based property testing (rapid operation lists) over a harness-owned gated link; driver-side delta debugging for crashes"),
  "C06": ("exploration",
@@ -40,8 +40,8 @@ P = {
   "Trusted: tick counter, frame link. Pings and locally failing calls are outside the ordering oracle (scope note in DESIGN.md). A third of the server-side cases run over real unix sockets, half of them against poll-mode servers.",
   "property-based testing (rapid) with ordering invariants over execution log, wire order and Done arrival order"),
  "C08": ("fault_enumeration",
-  "Enumeration per header encoder: hostile constants, every truncation and 14 (quick) / 255 (thorough) single-byte corruptions per position of 8 valid request frames against a real Server and of 4 valid response frames against a real Conn with pending calls and an open stream, all 256 upgrade bytes x method kinds x stream states, and a disconnect after every prefix of a 12-request burst in every non-poll mode; plus rapid-generated mutated/random frame sequences and random bursts. The worker process is the crash detector: the driver reads the case journal of a dead worker, confirms the case in a fresh process and shrinks it; in-process oracle: probes on the same (if it survived) and on another connection are answered correctly.",
-  "Trusted: frame level only (length-prefix framing is the dependency hslam/socket); non-poll server modes.",
+  "Enumeration per header encoder: hostile constants, every truncation and 14 (quick) / 255 (thorough) single-byte corruptions per position of 8 valid request frames against a real Server and of 4 valid response frames against a real Conn with pending calls and an open stream, all 256 upgrade bytes x method kinds x stream states, and a disconnect after every prefix of a 12-request burst in every non-poll mode (bursts also over unix sockets against poll-mode servers); client storms (1-12 callers issuing Go volleys, Call and stream traffic on a real Conn, optionally pipelined, while the peer disconnects; up to 60 connections per case); plus rapid-generated mutated/random frame sequences and random bursts. The worker process is the crash detector: the driver reads the case journal of a dead worker, confirms the case in a fresh process and shrinks it; in-process oracle: probes on the same (if it survived) and on another connection are answered correctly.",
+  "Trusted: frame level only (length-prefix framing is the dependency hslam/socket). A hostile frame that decodes as a response for the later probe's own sequence number does not judge that probe.",
   "exhaustive fault enumeration + rapid-generated hostile sequences in crash-isolated worker processes; native go fuzz in thorough"),
  "C03": ("fault_enumeration",
   "The connection (real Conn <-> real Server over an in-memory byte link under the library's own framing) is cut at every byte offset of the recorded transcript of 3 fixed workloads x 4 header encoders, in both directions, as orderly close and as I/O error, and closed locally / by the server after every number of delivered responses; generated workloads add sizes, read chunks and drawn offsets. Oracle: nobody hangs (10 s), orderly end => ErrShutdown, later call => ErrShutdown within 2 s, successful calls carry their own reply, and every call whose response frame lies completely within the bytes the client had read succeeds (frame boundaries parsed from the transcript).",
@@ -52,7 +52,7 @@ P = {
   "Trusted: frame link (never reorders), per-message identity (stream, direction, index). Loss = not arrived after 15 s, must reproduce in isolation.",
   "property-based testing (rapid) with harness-owned delivery schedule and sequence-equality oracle"),
  "C10": ("fault_enumeration",
-  "Every event (client Stream.Close, Conn.Close, peer close, cut with EOF / I/O error, Server.Close) x link (frame link, byte link, real unix sockets without and with poll) x block pattern x direct IO x pipelining is enumerated on a fixed two-stream shape with a gated unary call, plus generated shapes. Oracle: blocked client reads and the server handlers' blocked reads return ErrStreamShutdown within 10 s, later operations on both ends return it within 2 s, handler exit is logged; after a single Stream.Close siblings still echo and the executing unary call completes with its own reply.",
+  "Every event (client Stream.Close, Conn.Close, peer close, cut with EOF / I/O error, Server.Close) x link (frame link, byte link, real unix sockets without and with poll) x block pattern x direct IO x pipelining is enumerated on a fixed two-stream shape with a gated unary call, plus generated shapes, plus the event rawdrop (a scripted client writes the open frames of 1-3 streams behind an executing unary call and disconnects before any acknowledgement, 12 rounds per case). Oracle: blocked client reads and the server handlers' blocked reads return ErrStreamShutdown within 10 s, later operations on both ends return it within 2 s, handler exit is logged; after a single Stream.Close siblings still echo and the executing unary call completes with its own reply.",
   "Trusted: handler-side 'blocked in Read' marker; bounds 10 s / 2 s under rule T. Poll mode runs over real unix sockets in the per-run build directory.",
   "exhaustive event x mode enumeration + rapid-generated shapes, bounded-time unblocking oracle"),
  "C13": ("exploration",
@@ -64,15 +64,15 @@ P = {
   "Trusted: per-server execution logs, counting network. Recovery bound asserted for synchronous forms only.",
   "model-based property testing (rapid operation lists) with a per-address failure budget model"),
  "C15": ("exploration",
-  "Generated histories with long (gated) calls and open echo streams spanning sleeps of 1-30 ticks and CloseIdleConnections, KeepAlive/IdleConnTimeout from 1 tick. Oracle: every long call returns its own reply, every stream still echoes (busy connections are never closed by housekeeping); after the last use all connections are closed within KeepAlive+IdleConnTimeout+5 ticks; Transport.Close closes every pooled connection within 2 s and the housekeeping goroutine disappears (goroutine-profile diff).",
-  "Trusted: counting network, goroutine probe (created-by frame in github.com/hslam). The ~100 ns window between getConn and call registration is sampled only.",
+  "Generated histories with long (gated) calls and open echo streams spanning sleeps of 1-30 ticks and CloseIdleConnections, KeepAlive/IdleConnTimeout from 1 tick; hand-outs in which the harness obtains a pooled connection the way Transport.Call does (hook VerifGetConn), lets 0..KeepAlive+3 housekeeping ticks pass and then issues a long request on it. Oracle: every long call returns its own reply, every stream still echoes (busy connections are never closed by housekeeping); after the last use all connections are closed within KeepAlive+IdleConnTimeout+5 ticks; Transport.Close closes every pooled connection within 2 s and the housekeeping goroutine disappears (goroutine-profile diff).",
+  "Trusted: counting network, goroutine probe (created-by frame in github.com/hslam). The window between getConn and call registration is owned through the hook VerifGetConn (the caller's two steps are replayed by the harness) and additionally sampled.",
   "model-based property testing (rapid operation lists), survival + bounded reclamation oracle"),
  "C16": ("exploration",
-  "Generated Update / health histories racing 1-4 spinning callers through a real Client over a scripted fake RoundTripper, all three policies, Director none / empty / constant. Every Update is stamped (t_call, t_return) and every routed call carries its start time. Oracle: address == Director's constant, or address in a target list that was current at some moment between the call's start and its arrival at the transport.",
+  "Generated Update / health histories racing 1-4 spinning callers through a real Client over a scripted fake RoundTripper, all three policies, Director none / empty / constant, per-address call latencies (so that LeastTime has a favourite), Updates drawn independently or derived from the current set (targets leave - optionally the fastest - or join). Every Update is stamped (t_call, t_return) and every routed call carries its start time. Oracle: address == Director's constant, or address in a target list that was current at some moment between the call's start and its arrival at the transport.",
   "Trusted: fake RoundTripper, wall-clock stamps (interval semantics make the oracle insensitive to scheduling delays). Detector probes (Ping) excluded.",
   "property-based testing (rapid) with interval-stamped routing oracle over a fake transport"),
  "C17": ("exploration",
-  "Generated stable target sets (2-6, optionally listed with duplicates/empty strings), scripted latencies with step changes and outages, Alpha in {0,0.2,0.8,1}, Tick in {1 ns, 30 ms, 1 h}, sequential caller. Oracle: rotation windows of n distinct targets (RoundRobin; LeastTime when every call probes), Random within the list, and for LeastTime an interval-arithmetic model of the documented EWMA fed with durations measured in the fake transport: no call to a target whose estimate interval lies strictly above another's (Tick 1 h), probes at most one per Tick (30 ms).",
+  "Generated stable target sets (2-6, optionally listed with duplicates/empty strings), scripted latencies with step changes and outages, Alpha in {0,0.2,0.8,1}, Tick in {1 ns, 30 ms, 1 h}, sequential caller. Oracle: rotation windows of n distinct targets (RoundRobin; LeastTime when every call probes), Random within the list, and for LeastTime an interval-arithmetic model of the documented EWMA fed with durations measured in the fake transport: no call to a target whose estimate interval lies strictly above another's (Tick 1 h), probes at most one per Tick (30 ms) and, for designated probes (calls issued more than a Tick after the previous probe), n consecutive ones reach n distinct targets.",
   "Trusted: fake RoundTripper durations as lower bound, +max(2 ms, 50%) as upper bound of the client-measured duration; estimates are not read (no hook).",
   "property-based testing (rapid) against an interval-arithmetic reference model of the scheduler"),
  "C18": ("exploration",
